@@ -129,7 +129,8 @@ impl Ctxt for ThreadLocalCtxt {
     fn open_root<P: Props>(&self, props: P) -> Self::Frame {
         let mut span = HashMap::new();
 
-        let _ = props.for_each(|k, v| {
+        // The first value for a duplicated key wins, as it does for `Props::get`
+        let _ = props.dedup().for_each(|k, v| {
             span.insert(k.to_shared(), ThreadLocalValue::from_value(v));
 
             ControlFlow::Continue(())
@@ -149,7 +150,8 @@ impl Ctxt for ThreadLocalCtxt {
 
         let span_props = Arc::make_mut(span.props.as_mut().unwrap());
 
-        let _ = props.for_each(|k, v| {
+        // The first value for a duplicated key wins, as it does for `Props::get`
+        let _ = props.dedup().for_each(|k, v| {
             span_props.insert(k.to_shared(), ThreadLocalValue::from_value(v));
 
             ControlFlow::Continue(())
